@@ -128,7 +128,7 @@ class Runner:
         self.objs = {}
         self.orig = {}         # label -> original data if never written/protected/applied-into
         self.reads = []
-        self.S = []            # diagonalisers in order of entering (oracle outputs)
+        self.S = {}            # id(with statement) -> (diagonaliser (oracle output), monitor read done?)
         self.problems = []
 
     def label_of(self, o):
@@ -193,11 +193,18 @@ class Runner:
             ctx = qr.eigenbasis_of(op)
             with ctx:
                 SS = np.array(self.m.basis_transformations[-1])
-                self.S.append(SS)
+                self.S[id(s)] = [SS, False]
                 if not np.array_equal(np.abs(SS), np.round(np.abs(SS))) or not np.array_equal(np.abs(SS).sum(axis=0), np.ones(self.n)):
                     raise AssertionError("diagonaliser is not an exact signed permutation")
                 if not op.is_basis_protected:
-                    probe = op.get_current_basis()
+                    # the oracle's contract, which is also the first clause of the property: inside its context the
+                    # operator is diagonal with ascending eigenvalues
+                    dd = np.array(op.data)
+                    self.S[id(s)][1] = True            # this read is part of the program the model runs (PRead below)
+                    self.reads.append((opi, dd))
+                    if np.max(np.abs(dd - np.diag(np.diag(dd)))) > 1e-12 or np.any(np.diff(np.real(np.diag(dd))) < -1e-12):
+                        self.problems.append(("not_diagonal_ascending", "inside its own context operator %d is not diagonal with "
+                                              "ascending eigenvalues: diagonal %s" % (opi, np.real(np.diag(dd)).tolist())))
                 self.run(body)
             if self.m.get_current_basis() != 0 and self.m.current_basis_operator is not outer_bo:
                 self.problems.append(("current_basis_operator", "after leaving a nested context current_basis_operator is %r, "
@@ -256,12 +263,15 @@ def coq_prog(stmts, Sq, variant):
         elif k == "apply":
             parts.append("PApply _ _ %s %d%%nat %d%%nat %d%%nat" % (variant, s[1], s[2], s[3]))
         elif k == "with":
-            if Sq:
-                S = Sq.pop(0)
+            if id(s) in Sq:
+                S, monitored = Sq[id(s)]
                 smat = "(mat_of (R:=ZR) %s)" % cm.clist([cm.clist([cm.zlit(int(x)) for x in row]) for row in S])
             else:
-                smat = "(@mid ZR)"       # never entered in the implementation (an exception came first)
-            parts.append("PWith _ _ %d%%nat %s %s" % (s[1], smat, coq_prog(s[2], Sq, variant)))
+                smat, monitored = "(@mid ZR)", False       # never entered in the implementation (an exception came first)
+            body = coq_prog(s[2], Sq, variant)
+            if monitored:
+                body = "(PSeq _ _ (PRead _ _ %d%%nat) %s)" % (s[1], body)
+            parts.append("PWith _ _ %d%%nat %s %s" % (s[1], smat, body))
         elif k == "raise":
             parts.append("PRaise _ _")
         elif k == "try":
@@ -338,7 +348,7 @@ def run(chk, cases):
         except ValueError:
             chk.count("skipped:non-integer")
             continue
-        Sq = list(rn.S)
+        Sq = rn.S
         body = coq_prog(c["prog"], Sq, "VARIANT")
         regs = [m.basis_registered[k] for k in sorted(m.basis_registered, reverse=True)]
         regs_l = cm.clist([cm.clist(["%d%%nat" % rn.label_of(o) for o in lst]) for lst in regs])
@@ -380,10 +390,10 @@ def float_monitors(chk, tier):
     from quantarhei.qm.hilbertspace.operators import SelfAdjointOperator
     from quantarhei.qm.liouvillespace.superoperator import SuperOperator
     r = cm.rng(PID + "float")
-    for k in range(12 if tier == "quick" else 150):
+    for k in range(16 if tier == "quick" else 200):
         reset_manager()
         n = r.choice([2, 3, 4])
-        kind = ["real", "degenerate", "complex"][k % 3]
+        kind = ["real", "degenerate", "complex", "diagonal_unsorted"][k % 4]
         rs = np.random.RandomState(r.randrange(2 ** 31))
         A = rs.randn(n, n)
         if kind == "complex":
@@ -393,6 +403,9 @@ def float_monitors(chk, tier):
             Q, _ = np.linalg.qr(rs.randn(n, n))
             d = np.array([1.0] * (n - 1) + [2.0])
             A = Q.dot(np.diag(d)).dot(Q.T)
+        if kind == "diagonal_unsorted":
+            d = rs.permutation(n).astype(float) + (rs.rand() < 0.5) * np.array([1.0] + [0.0] * (n - 1))   # sometimes degenerate
+            A = np.diag(d[::-1] if np.all(np.diff(d) >= 0) else d)
         B = rs.randn(n, n) + 1j * rs.randn(n, n)
         B = B + B.conj().T
         rho = rs.randn(n, n) + 1j * rs.randn(n, n)
